@@ -6,6 +6,7 @@ import (
 	"net/http"
 	"net/http/httptest"
 	"strings"
+	"time"
 
 	"github.com/rs/zerolog"
 
@@ -21,6 +22,31 @@ type apiReq struct {
 	Body   string `json:"body"`
 	UA     string `json:"ua"`
 	NoBody bool   `json:"nobody"`
+	// PauseMs > 0: the body arrives in two parts with this pause in between (a slow or chunked client), which widens the window
+	// between a handler's first look at the state and the end of its parsing of the body
+	PauseMs int `json:"pause_ms,omitempty"`
+}
+
+type slowBody struct {
+	parts [][]byte
+	pause time.Duration
+	k     int
+}
+
+func (b *slowBody) Read(p []byte) (int, error) {
+	if b.k >= len(b.parts) {
+		return 0, io.EOF
+	}
+	if b.k > 0 && len(b.parts[b.k]) > 0 && b.pause > 0 {
+		time.Sleep(b.pause)
+		b.pause = 0
+	}
+	n := copy(p, b.parts[b.k])
+	b.parts[b.k] = b.parts[b.k][n:]
+	if len(b.parts[b.k]) == 0 {
+		b.k++
+	}
+	return n, nil
 }
 
 type apiCase struct {
@@ -45,6 +71,10 @@ func doReq(h http.Handler, r apiReq) (resp apiResp) {
 	var body io.Reader
 	if !r.NoBody {
 		body = strings.NewReader(r.Body)
+		if r.PauseMs > 0 && len(r.Body) > 1 {
+			h := len(r.Body) / 2
+			body = &slowBody{parts: [][]byte{[]byte(r.Body[:h]), []byte(r.Body[h:])}, pause: time.Duration(r.PauseMs) * time.Millisecond}
+		}
 	}
 	req := httptest.NewRequest(r.Method, r.Path, body)
 	if r.UA != "" {
